@@ -72,7 +72,7 @@ extern "C" int vf_run_case(const uint8_t * data, size_t size)
       const uint32 wcBefore[2] = {IndexWidthClass(T[0]->GetNumAllocatedItemSlots()), IndexWidthClass(T[1]->GetNumAllocatedItemSlots())};
       bool iterMid[2] = {false, false}; for (int j=0;j<3;j++) if (I[j].alive && I[j].owner >= 0 && I[j].hasCookie) iterMid[I[j].owner] = true;
       const size_t szBefore[2] = {M[0].l.size(), M[1].l.size()};
-      const uint8_t op = bs.u8()%30; const int w = bs.u8()&1; const int k = bs.u8()%12, k2 = bs.u8()%12, v = bs.u8(); HT & t = *T[w]; MTable & m = M[w]; const char * name = "?";
+      const uint8_t opb = bs.u8(); const uint8_t op = (opb >= 240) ? (uint8_t)(30+(opb-240)) : (uint8_t)(opb%30); /* (240..255 used to fold onto 0..15) */ const int w = bs.u8()&1; const int k = bs.u8()%12, k2 = bs.u8()%12, v = bs.u8(); HT & t = *T[w]; MTable & m = M[w]; const char * name = "?";
       ML::iterator f = m.find(k), f2 = m.find(k2);
       if (vf::Verbose()) {fprintf(stderr, "  > op %u w=%d k=%d k2=%d v=%d |", op, w, k, k2, v); for (int j=0;j<3;j++) if (I[j].alive) fprintf(stderr, " it%d{t%d %s scratch=%d(%d,%d) cookie=%d(%d)}", j, I[j].owner, I[j].back?"bwd":"fwd", (int)I[j].scratch, I[j].sk, I[j].sv, (int)I[j].hasCookie, I[j].cookie); fprintf(stderr, "\n");}
       switch(op)
@@ -107,6 +107,50 @@ extern "C" int vf_run_case(const uint8_t * data, size_t size)
          case 25: name="GetAndMoveToFront"; {int * r = t.GetAndMoveToFront(k); if ((r != NULL) != (f != m.l.end())) FAIL("GetAndMoveToFront presence"); if ((f != m.l.end())&&(f != m.l.begin())) {OnEntryLeaving(w, k); std::pair<int,int> e = *m.find(k); m.l.erase(m.find(k)); m.l.push_front(e);}} break;
          case 26: name="PutBefore"; {if (t.PutBefore(k, k2, v).IsError()) FAIL("PutBefore"); const bool place = (f2 != m.l.end())&&(k != k2); if (f != m.l.end()) {const int ov = f->second; f->second = v; if (place) {ML::iterator nx = f; ++nx; if (nx != f2) {OnEntryLeaving(w, k, true, ov); std::pair<int,int> e = *m.find(k); m.l.erase(m.find(k)); m.l.insert(m.find(k2), e);}}} else {if (place) m.l.insert(f2, std::make_pair(k,v)); else m.l.push_back(std::make_pair(k,v));}} break;
          case 27: name="ShrinkToFit"; (void) t.ShrinkToFit(); break;
+         case 30: name="PutBehind"; {if (t.PutBehind(k, k2, v).IsError()) FAIL("PutBehind"); const bool place = (f2 != m.l.end())&&(k != k2); if (f != m.l.end()) {const int ov = f->second; f->second = v; if (place) {bool already = false; if (f != m.l.begin()) {ML::iterator pv = f; --pv; already = (pv == f2);} if (!already) {OnEntryLeaving(w, k, true, ov); std::pair<int,int> e = *m.find(k); m.l.erase(m.find(k)); ML::iterator a = m.find(k2); ++a; m.l.insert(a, e);}}} else {if (place) {ML::iterator a = f2; ++a; m.l.insert(a, std::make_pair(k,v));} else m.l.push_back(std::make_pair(k,v));}} break;
+         case 31: name="PutAtPosition"; {const uint32 pos = bs.u8()%14; if (t.PutAtPosition(k, pos, v).IsError()) FAIL("PutAtPosition");
+                  if (f == m.l.end()) {m.l.push_back(std::make_pair(k,v)); f = m.find(k); if ((pos < m.l.size()-1)) {std::pair<int,int> e = *f; m.l.erase(f); ML::iterator ins = m.l.begin(); for (uint32 q=0; q<pos && ins != m.l.end(); q++) ++ins; m.l.insert(ins, e);}}
+                  else
+                  {
+                     const int ov = f->second; f->second = v;     // same positions as MoveToPosition: an interior target always takes the entry out and puts it back
+                     if (pos == 0) {if (f != m.l.begin()) {OnEntryLeaving(w, k, true, ov); std::pair<int,int> e = *m.find(k); m.l.erase(m.find(k)); m.l.push_front(e);}}
+                     else if (pos >= m.l.size()) {if (&*f != &m.l.back()) {OnEntryLeaving(w, k, true, ov); std::pair<int,int> e = *m.find(k); m.l.erase(m.find(k)); m.l.push_back(e);}}
+                     else {OnEntryLeaving(w, k, true, ov); std::pair<int,int> e = *m.find(k); m.l.erase(m.find(k)); ML::iterator ins = m.l.begin(); for (uint32 q=0; q<pos && ins != m.l.end(); q++) ++ins; m.l.insert(ins, e);}
+                  }} break;
+         case 32: name="PutIfNotAlreadyPresent"; {int * r = (v&1) ? t.PutIfNotAlreadyPresent(k, v) : t.PutIfNotAlreadyPresent(k); if ((r == NULL) != (f != m.l.end())) FAIL("PutIfNotAlreadyPresent returned %s for a key that %s", r ? "a value" : "NULL", (f != m.l.end()) ? "exists" : "does not exist"); if (f == m.l.end()) {const int nv = (v&1) ? v : 0; if (*r != nv) FAIL("PutIfNotAlreadyPresent placed %d, expected %d", *r, nv); m.l.push_back(std::make_pair(k, nv));}} break;
+         case 33: name="PutWithDefault/GetWithDefault"; {if (t.GetWithDefault(k, 777) != ((f != m.l.end()) ? f->second : 777)) FAIL("GetWithDefault(key, default)"); if (t.GetWithDefault(k) != ((f != m.l.end()) ? f->second : 0)) FAIL("GetWithDefault(key)"); if (t[k2] != ((f2 != m.l.end()) ? f2->second : 0)) FAIL("operator[]");
+                  if (t.PutWithDefault(k).IsError()) FAIL("PutWithDefault"); if (f != m.l.end()) f->second = 0; else m.l.push_back(std::make_pair(k, 0));} break;
+         case 34: name="RemoveWithDefault"; {const int r = (v&1) ? t.RemoveWithDefault(k, 555) : t.RemoveWithDefault(k); const int e = (f != m.l.end()) ? f->second : ((v&1) ? 555 : 0); if (r != e) FAIL("RemoveWithDefault returned %d, expected %d", r, e); if (f != m.l.end()) {OnEntryLeaving(w, k); m.l.erase(m.find(k));}} break;
+         case 35: name="GetAndMoveToBack"; {int * r = t.GetAndMoveToBack(k); if ((r != NULL) != (f != m.l.end())) FAIL("GetAndMoveToBack presence"); if ((r)&&(*r != f->second)) FAIL("GetAndMoveToBack value"); if ((f != m.l.end())&&(&*f != &m.l.back())) {OnEntryLeaving(w, k); std::pair<int,int> e = *m.find(k); m.l.erase(m.find(k)); m.l.push_back(e);}} break;
+         case 36: name="MoveToTable"; {const status_t r = t.MoveToTable(k, *T[1-w]); if (r.IsOK() != (f != m.l.end())) FAIL("MoveToTable status"); if (f != m.l.end()) {const int val = f->second; ML::iterator g = M[1-w].find(k); if (g != M[1-w].l.end()) g->second = val; else M[1-w].l.push_back(std::make_pair(k, val)); OnEntryLeaving(w, k); m.l.erase(m.find(k));}} break;
+         case 37: name="CopyToTable"; {const status_t r = t.CopyToTable(k, *T[1-w]); if (r.IsOK() != (f != m.l.end())) FAIL("CopyToTable status"); if (f != m.l.end()) {ML::iterator g = M[1-w].find(k); if (g != M[1-w].l.end()) g->second = f->second; else M[1-w].l.push_back(std::make_pair(k, f->second));}} break;
+         case 38: name="SwapWithTable"; {ML::iterator g = M[1-w].find(k); const bool mine = (f != m.l.end()), his = (g != M[1-w].l.end()); const status_t r = t.SwapWithTable(k, *T[1-w]); if (r.IsOK() != (mine||his)) FAIL("SwapWithTable status");
+                  if (mine && his) std::swap(f->second, g->second);
+                  else if (mine) {M[1-w].l.push_back(*f); OnEntryLeaving(w, k); m.l.erase(m.find(k));}
+                  else if (his)  {m.l.push_back(*g); OnEntryLeaving(1-w, k); M[1-w].l.erase(M[1-w].find(k));}} break;
+         case 39: name="IsEqualTo/key-set relations"; {
+                  bool sameSet = (M[0].l.size() == M[1].l.size()), sameSeq = sameSet, sub01 = true, sub10 = true, kv01 = true, common = false;
+                  for (ML::iterator i=M[0].l.begin(); i!=M[0].l.end(); ++i) {ML::iterator g = M[1].find(i->first); if (g == M[1].l.end()) {sameSet = false; sub01 = false; kv01 = false;} else {common = true; if (g->second != i->second) {sameSet = false; kv01 = false;}}}
+                  for (ML::iterator i=M[1].l.begin(); i!=M[1].l.end(); ++i) if (M[0].find(i->first) == M[0].l.end()) sub10 = false;
+                  if (sameSeq) {ML::iterator a = M[0].l.begin(), b = M[1].l.begin(); for (; a != M[0].l.end(); ++a, ++b) if (*a != *b) {sameSeq = false; break;}}
+                  if (T[0]->IsEqualTo(*T[1], false) != sameSet) FAIL("IsEqualTo(unordered) %d, model %d", (int)!sameSet, (int)sameSet); if (T[0]->IsEqualTo(*T[1], true) != sameSeq) FAIL("IsEqualTo(ordered) says %d, model %d", (int)!sameSeq, (int)sameSeq);
+                  if ((*T[0] == *T[1]) != sameSet) FAIL("operator=="); if ((*T[0] != *T[1]) == sameSet) FAIL("operator!=");
+                  if (T[0]->AreKeysASubsetOf(*T[1]) != sub01) FAIL("AreKeysASubsetOf"); if (T[0]->AreKeysASupersetOf(*T[1]) != sub10) FAIL("AreKeysASupersetOf"); if (T[0]->AreKeySetsEqual(*T[1]) != (sub01 && sub10)) FAIL("AreKeySetsEqual");
+                  if (T[0]->AreKeysAndValuesASubsetOf(*T[1]) != kv01) FAIL("AreKeysAndValuesASubsetOf"); if (T[0]->HasKeysInCommonWith(*T[1]) != common) FAIL("HasKeysInCommonWith");} break;
+         case 40: name="value queries"; {const int val = v%4; int32 first = -1, last = -1, idx = 0; const int * fk = NULL; const int * lk = NULL; for (ML::iterator i=m.l.begin(); i!=m.l.end(); ++i, idx++) if (i->second == val) {if (first < 0) {first = idx; fk = &i->first;} last = idx; lk = &i->first;}
+                  if (t.IndexOfValue(val, false) != first) FAIL("IndexOfValue(%d) forward %d, model %d", val, t.IndexOfValue(val, false), first); if (t.IndexOfValue(val, true) != last) FAIL("IndexOfValue(%d) backward %d, model %d", val, t.IndexOfValue(val, true), last);
+                  if (t.ContainsValue(val) != (first >= 0)) FAIL("ContainsValue"); const int * gk = t.GetFirstKeyWithValue(val); if ((gk != NULL) != (fk != NULL) || (gk && *gk != *fk)) FAIL("GetFirstKeyWithValue"); const int * hk = t.GetLastKeyWithValue(val); if ((hk != NULL) != (lk != NULL) || (hk && *hk != *lk)) FAIL("GetLastKeyWithValue");} break;
+         case 41: name="GetKeyBefore/GetKeyAfter/At"; {const int * b4 = t.GetKeyBefore(k); const int * af = t.GetKeyAfter(k); const int * eb = NULL; const int * ea = NULL; if (f != m.l.end()) {if (f != m.l.begin()) {ML::iterator p2 = f; --p2; eb = &p2->first;} ML::iterator n2 = f; ++n2; if (n2 != m.l.end()) ea = &n2->first;}
+                  if ((b4 != NULL) != (eb != NULL) || (b4 && *b4 != *eb)) FAIL("GetKeyBefore(%d)", k); if ((af != NULL) != (ea != NULL) || (af && *af != *ea)) FAIL("GetKeyAfter(%d)", k);
+                  const uint32 pos = (uint32)(k2%14); ML::iterator at = m.l.begin(); for (uint32 q=0; q<pos && at != m.l.end(); q++) ++at; const int * ka = t.GetKeyAt(pos); const int * va = t.GetValueAt(pos); if ((ka != NULL) != (at != m.l.end()) || (ka && ((*ka != at->first)||(*va != at->second)))) FAIL("GetKeyAt/GetValueAt(%u)", pos);
+                  if (t.GetKeyAtWithDefault(pos, -5) != ((at != m.l.end()) ? at->first : -5)) FAIL("GetKeyAtWithDefault"); if (t.GetValueAtWithDefault(pos, -6) != ((at != m.l.end()) ? at->second : -6)) FAIL("GetValueAtWithDefault");
+                  if (t.IndexOfKey(k) != ((f != m.l.end()) ? (int32)std::distance(m.l.begin(), f) : -1)) FAIL("IndexOfKey");
+                  if (t.GetFirstKeyWithDefault(-7) != (m.l.empty() ? -7 : m.l.front().first)) FAIL("GetFirstKeyWithDefault"); if (t.GetLastKeyWithDefault(-7) != (m.l.empty() ? -7 : m.l.back().first)) FAIL("GetLastKeyWithDefault"); if (t.GetFirstValueWithDefault(-8) != (m.l.empty() ? -8 : m.l.front().second)) FAIL("GetFirstValueWithDefault"); if (t.GetLastValueWithDefault(-8) != (m.l.empty() ? -8 : m.l.back().second)) FAIL("GetLastValueWithDefault");} break;
+         case 42: name="Intersect"; if (M[0].l.size()+M[1].l.size() > 3000) break; {uint32 removed = 0; std::vector<int> gone; for (ML::iterator i=m.l.begin(); i!=m.l.end(); ++i) if (M[1-w].find(i->first) == M[1-w].l.end()) gone.push_back(i->first); const uint32 r = t.Intersect(*T[1-w]); for (size_t i=0; i<gone.size(); i++) {OnEntryLeaving(w, gone[i]); m.l.erase(m.find(gone[i])); removed++;} if (r != removed) FAIL("Intersect returned %u, model %u", r, removed);} break;
+         // (WouldBeEqualToAfterPut/Remove do not compile for a table with a custom hash functor -- their iterators name the default functor -- so they are not exercised here)
+         case 43: name="Put(key, value that lives in this table)"; {const int * pv = t.Get(k2); if (pv) {const int val = *pv; if (t.Put(k, *pv).IsError()) FAIL("Put(aliasing value)"); if (f != m.l.end()) f->second = val; else m.l.push_back(std::make_pair(k, val));}
+                  const int * pk = t.GetKeyAt((uint32)(v%14)); if (pk) {const int key = *pk; if (t.Put(*pk, v).IsError()) FAIL("Put(aliasing key)"); m.find(key)->second = v;}} break;
+         case 44: case 45: name="PutAndGet"; {int * r = t.PutAndGet(k, v); if (r == NULL) FAIL("PutAndGet failed"); if (*r != v) FAIL("PutAndGet returned a pointer to %d, expected %d", *r, v); if (f != m.l.end()) f->second = v; else m.l.push_back(std::make_pair(k,v));} break;
          case 28: name="Put(table)"; if (M[0].l.size()+M[1].l.size() > 3000) break; /* the list model is quadratic here */ {if (T[w]->Put(*T[1-w]).IsError()) FAIL("Put(table)"); for (ML::iterator i=M[1-w].l.begin(); i!=M[1-w].l.end(); ++i) {ML::iterator g = M[w].find(i->first); if (g != M[w].l.end()) g->second = i->second; else M[w].l.push_back(*i);}} break;
          case 29: name="Remove(table keys)"; if (M[0].l.size()+M[1].l.size() > 3000) break; {(void) T[w]->Remove(*T[1-w]); for (ML::iterator i=M[1-w].l.begin(); i!=M[1-w].l.end(); ++i) {if (M[w].find(i->first) != M[w].l.end()) {OnEntryLeaving(w, i->first); M[w].l.erase(M[w].find(i->first));}}} break;
       }
